@@ -43,7 +43,7 @@ def gen_case(rng, tier, k):
     if st in ("build", "block", "scc") and rng.random() < 0.35:
         # sibling nodes (the two values of an input) with the same variables and wiring but different logic:
         # what the block / component strategies decide in one of them must not leak into the other
-        bnet = common.g_modulated(rng)
+        bnet = common.g_modulated(rng, focus=rng.random() < 0.6)
     return {"bnet": bnet, "strategy": st}
 
 
